@@ -73,6 +73,13 @@ pub proof fn lemma_chain_bound(subs: Map<usize, usize>, i: usize)
    pub open spec fn wf_ids(&self) -> bool {
        forall|x: T| #[trigger] self.ids().contains_key(x) ==> self.ids()[x] < self.sets.len()
    }
+   /// class-level connection from -> to is recorded / recorded in the reverse map
+   pub open spec fn conn(&self, a: usize, b: usize) -> bool { self.set_connections@.contains_key(a) && self.set_connections@[a]@.contains(b) }
+   pub open spec fn rconn(&self, a: usize, b: usize) -> bool { self.reverse_set_connections@.contains_key(b) && self.reverse_set_connections@[b]@.contains(a) }
+   /// the reverse connection map mirrors the connection map
+   pub open spec fn conn_mirror(&self) -> bool {
+       forall|a: usize, b: usize| #![trigger self.conn(a, b)] #![trigger self.rconn(a, b)] self.conn(a, b) <==> self.rconn(a, b)
+   }
    /// THE VIEW used here: the class (dominant set id) of a known element
    pub open spec fn class_of(&self, x: T) -> usize { root(self.subs(), self.ids()[x]) }
    pub open spec fn clone_is_identity() -> bool {
@@ -150,7 +157,46 @@ pub proof fn lemma_chain_bound(subs: Map<usize, usize>, i: usize)
        requires old(self).wf_subs(), old(self).wf_ids(), obeys_key_model::<T>(), Self::clone_is_identity(), old(self).sets.len() < usize::MAX,
        ensures final(self).wf_subs(), final(self).wf_ids(), final(self).ids().contains_key(x) && r == final(self).class_of(x),
                forall|z: T| #[trigger] old(self).ids().contains_key(z) ==> final(self).ids().contains_key(z) && final(self).class_of(z) == old(self).class_of(z),
-//@drop get_dominant_id_mut_halving add merge_multiple add_one_connection add_set_connection set_of set_of_by_set_id rev_set_of rev_set_of_by_set_id iter_all contains is_empty get_set_connections get_reverse_set_connections count_exact assert_disjoint_invariant assert_set_connections_dominant_sets
+//@fn add_one_connection | r
+       requires old(self).conn_mirror(),
+       ensures final(self).conn_mirror(),
+               r == !old(self).conn(from, to),
+               forall|a: usize, b: usize| #![trigger final(self).conn(a, b)] #![trigger old(self).conn(a, b)] final(self).conn(a, b) <==> (old(self).conn(a, b) || (a == from && b == to)),
+               final(self).sets == old(self).sets, final(self).elem_ids == old(self).elem_ids, final(self).set_subsumptions == old(self).set_subsumptions,
+//@ghost after-text if !self.set_connections.entry(from).or_default().insert(to) {
+         proof {
+             let m0 = old(self).set_connections@;
+             assert(m0.contains_key(from) && m0[from]@.contains(to));
+             assert(self.set_connections@.contains_key(from) && self.set_connections@[from]@ =~= m0[from]@);
+             assert(forall|a: usize| a != from ==> (#[trigger] self.set_connections@.contains_key(a) == m0.contains_key(a)) && (m0.contains_key(a) ==> self.set_connections@[a] == m0[a]));
+             assert forall|a: usize, b: usize| self.conn(a, b) <==> old(self).conn(a, b) by { }
+             assert forall|a: usize, b: usize| self.conn(a, b) <==> self.rconn(a, b) by {
+                 assert(old(self).conn(a, b) <==> old(self).rconn(a, b));
+             }
+         }
+//@ghost after-text self.reverse_set_connections.entry(to).or_default().insert(from);
+      proof {
+          let m0 = old(self).set_connections@;
+          let r0 = old(self).reverse_set_connections@;
+          let s0 = if m0.contains_key(from) { m0[from]@ } else { Set::<usize>::empty() };
+          let v0 = if r0.contains_key(to) { r0[to]@ } else { Set::<usize>::empty() };
+          assert(!s0.contains(to));
+          assert(self.set_connections@.contains_key(from) && self.set_connections@[from]@ == s0.insert(to));
+          assert(forall|a: usize| a != from ==> (#[trigger] self.set_connections@.contains_key(a) == m0.contains_key(a)) && (m0.contains_key(a) ==> self.set_connections@[a] == m0[a]));
+          assert(self.reverse_set_connections@.contains_key(to) && self.reverse_set_connections@[to]@ == v0.insert(from));
+          assert(forall|b: usize| b != to ==> (#[trigger] self.reverse_set_connections@.contains_key(b) == r0.contains_key(b)) && (r0.contains_key(b) ==> self.reverse_set_connections@[b] == r0[b]));
+          assert forall|a: usize, b: usize| self.conn(a, b) <==> self.rconn(a, b) by {
+              if a == from && b == to {
+              } else if b == to {
+                  assert(old(self).conn(a, to) <==> old(self).rconn(a, to));
+              } else if a == from {
+                  assert(old(self).conn(from, b) <==> old(self).rconn(from, b));
+              } else {
+                  assert(old(self).conn(a, b) <==> old(self).rconn(a, b));
+              }
+          }
+      }
+//@drop get_dominant_id_mut_halving add merge_multiple add_set_connection set_of set_of_by_set_id rev_set_of rev_set_of_by_set_id iter_all contains is_empty get_set_connections get_reverse_set_connections count_exact assert_disjoint_invariant assert_set_connections_dominant_sets
 //@end
 
 } // verus!
